@@ -19,6 +19,9 @@ from .model import norm, walk_scope
 
 SANITISER_CALLS = {"id", "len", "repr", "str", "bool", "type", "isinstance", "hasattr", "callable", "int", "format", "get_code", "sorted_names"}
 CODE_ATTRS = {"f_code", "__code__", "gi_code", "ag_code", "cr_code", "co_name", "co_filename", "co_code", "co_consts", "__name__", "__qualname__", "__module__", "f_lineno", "f_lasti"}
+# result objects are made to hold references to the target (obj, pyframe, inner stacks): an instance of
+# one of them in persistent state retains whatever an extraction later writes into it
+RESULT_TYPES = {"Context", "Frame", "Stack", "FrameDetails", "FrameDetails.FinallyBlock"}
 SOURCE_CALLS = {"sys._getframe", "sys._current_frames", "gc.get_referents", "threading.enumerate", "greenlet_getcurrent", "get_true_caller", "inspect.getargvalues"}
 
 
@@ -41,6 +44,8 @@ def expr_tainted(e: Optional[ast.AST], tainted: Set[str]) -> bool:
         return expr_tainted(e.value, tainted)
     if isinstance(e, ast.Call):
         f = norm(e.func)
+        if f in RESULT_TYPES:
+            return True
         if f in SANITISER_CALLS or f.split(".")[-1] in ("get_code",):
             return False
         if f in SOURCE_CALLS:
@@ -103,6 +108,21 @@ def tainted_names(fn: ast.AST, clean_params: Set[str] = frozenset(), inherited: 
                         if isinstance(x, ast.Name) and isinstance(x.ctx, ast.Store) and x.id not in t:
                             t.add(x.id)
                             changed = True
+                    # x[k] = tainted / x.attr = tainted  taints the container x
+                    if isinstance(tg, (ast.Subscript, ast.Attribute)):
+                        root = tg
+                        while isinstance(root, (ast.Subscript, ast.Attribute)):
+                            root = root.value
+                        if isinstance(root, ast.Name) and root.id not in t and root.id not in ("self",):
+                            t.add(root.id)
+                            changed = True
+        for n in walk_scope(fn):
+            # x.append(tainted) / x.add(tainted) / x.update(tainted) taints x
+            if isinstance(n, ast.Call) and isinstance(n.func, ast.Attribute) and n.func.attr in ("append", "appendleft", "add", "update", "extend", "insert", "setdefault") \
+                    and isinstance(n.func.value, ast.Name) and n.func.value.id not in t:
+                if any(expr_tainted(a, t) for a in n.args):
+                    t.add(n.func.value.id)
+                    changed = True
     return t
 
 
